@@ -638,7 +638,48 @@ func ruleBatchElapsed(c *Ctx, r *R) {
 				})
 				return res
 			}
-			good := callsIn(over, sends) && !callsIn(over, arms) && callsIn(under, arms) && !callsIn(under, sends)
+			// ... on every way through the branch: a further condition in front of the call (`else if timer == nil {
+			// startTimer() }`) leaves ways on which a young batch is left with no timer running - it is then held back from
+			// the waiting consumer until it fills or the source ends
+			mustCall := func(blk *ssa.BasicBlock, pred func(f *ssa.Function) bool) bool {
+				has := func(bb *ssa.BasicBlock) bool {
+					for _, x := range bb.Instrs {
+						if call, ok := x.(*ssa.Call); ok {
+							curCall = call
+							cal := staticCallee(&call.Call)
+							hit := cal != nil && pred(cal)
+							curCall = nil
+							if hit {
+								return true
+							}
+						}
+					}
+					return false
+				}
+				seen := map[*ssa.BasicBlock]bool{}
+				var walk func(bb *ssa.BasicBlock) bool
+				walk = func(bb *ssa.BasicBlock) bool {
+					if !blk.Dominates(bb) {
+						return false // left the branch without the call
+					}
+					if seen[bb] || has(bb) {
+						return true
+					}
+					seen[bb] = true
+					if len(bb.Succs) == 0 {
+						_, isRet := bb.Instrs[len(bb.Instrs)-1].(*ssa.Return)
+						return !isRet // a panic is no way through; a return without the call is
+					}
+					for _, sc := range bb.Succs {
+						if !walk(sc) {
+							return false
+						}
+					}
+					return true
+				}
+				return walk(blk)
+			}
+			good := callsIn(over, sends) && !callsIn(over, arms) && callsIn(under, arms) && !callsIn(under, sends) && mustCall(under, arms) && mustCall(over, sends)
 			r.ok(good, "stream.BatchFunc|elapsed-guard", iff.Pos(), "the edge on which time.Since(batchStart) exceeds maxWait must flush, the other edge must arm the timer (direction fixed by what maxWait means)")
 		})
 	}
